@@ -2372,6 +2372,7 @@ def normalize_module(tree: ast.Module, extern=None) -> ast.Module:
                 # (local functions handed to a worker that is now in place)
                 n2.inline_local_defs(n)
                 n2.propagate_local_constants(n)
+                n2.inline_single_use_generators(n)
                 n2.next_loops(n)
         tree = Idioms().visit(tree)
         tree = Idioms2(coll).visit(tree)
